@@ -1004,11 +1004,13 @@ fn main() {
         "replay" => {
             let cases = read_ndjson(args.get("cases").expect("--cases"));
             let mut tr = Tr::new(&out_dir, "trace_codec.ndjson");
+            // the oversize cases go to their own (small) trace file
+            let mut trb = Tr::new(&out_dir, "trace_codec_big.ndjson");
             let mut kinds = std::collections::BTreeMap::<String, usize>::new();
             for c in &cases {
                 rep.cases += 1;
                 if c.get("big").is_some() {
-                    run_big_case(&mut tr, j_str(&c["shape"]), j_usize(&c["n"]), c["writable"].as_bool(), &mut rep, &mut cnt);
+                    run_big_case(&mut trb, j_str(&c["shape"]), j_usize(&c["n"]), c["writable"].as_bool(), &mut rep, &mut cnt);
                     *kinds.entry("big".into()).or_default() += 1;
                 } else if c.get("strictcase").is_some() {
                     run_strict_case(&mut tr, c, &mut rep, &mut cnt);
@@ -1022,9 +1024,13 @@ fn main() {
                 }
             }
             rep.extra.insert("kinds".into(), json!(kinds));
-            let path = tr.path.clone();
-            let n = tr.w.finish();
-            files.push(json!({"path": path, "events": n}));
+            for t in [tr, trb] {
+                let path = t.path.clone();
+                let n = t.w.finish();
+                if n > 0 {
+                    files.push(json!({"path": path, "events": n}));
+                }
+            }
         }
         "random" => {
             let n = args.get("n").map(|s| s.parse::<usize>().unwrap()).unwrap_or(200);
